@@ -28,6 +28,7 @@ def cases(tier, seed):
     for first in range(-1, 2):
         out.append({"variant": "layout", "N": 4, "G": 2, "first": first, "orders": [[0, 1], [1, 0]], "masks": [None, [True, False, True, True]],
                     "name": f"GroupBy.ema(index_by_groups=True) lists the row-aligned numbers group by group/N=4,G=2/both label orders/code sequences starting with {first}"})
+    out.append({"variant": "ungrouped_timed", "N": 4, "name": "time-weighted: grouped(single group) == ema(times=...)/float64/N=4/gaps in (0,1,2) halflives"})
     out.append({"variant": "halflife_api", "name": "ema/ema_grouped(halflife=h): alpha = 1 - 2^(-1/h) for every real h > 0"})
     for unit in ("ns", "us", "ms", "s"):
         out.append({"variant": "timed_api", "unit": unit, "N": 3, "name": f"ema_grouped(halflife='1{unit}', times=datetime64[{unit}])/N=3"})
@@ -48,6 +49,8 @@ def run_case(E, case):
         return F.run_timed_api(E, case, PROP)
     if v == "layout":
         return F.run_layout(E, case, PROP)
+    if v == "ungrouped_timed":
+        return F.run_ungrouped_timed(E, case, PROP)
     raise ValueError(v)
 
 
